@@ -148,6 +148,16 @@ func diffHashes(a, b map[string]string) string {
 	return strings.Join(d, "; ")
 }
 
+// onlyRemovals: every part of a diffHashes result is a removed file.
+func onlyRemovals(d string) bool {
+	for _, part := range strings.Split(d, "; ") {
+		if !strings.HasPrefix(part, "removed ") {
+			return false
+		}
+	}
+	return d != ""
+}
+
 func copyDir(src, dst string) error {
 	if err := os.MkdirAll(dst, 0755); err != nil {
 		return err
@@ -453,17 +463,39 @@ func (cs *c14Case) checkDirs(when string) {
 		}
 		cs.nHashChecks++
 		if d := diffHashes(k.Hashes, h); d != "" {
-			// the purge (asynchronous, after every backup) may be removing this
-			// directory right now: look again
-			time.Sleep(20 * time.Millisecond)
-			if _, serr := os.Stat(k.Dir); serr != nil {
+			// The purge (asynchronous, after every backup) may be removing this
+			// directory right now. os.RemoveAll deletes file by file, so a
+			// directory that only LOST files is "being purged" until it is gone:
+			// wait for that on a generous watchdog (a cold or slow disk needs far
+			// more than milliseconds; `vp check` on a fresh copy showed > 20 ms),
+			// never decide on the wall clock. Content that changed or a file that
+			// was added is judged at once (after one second look).
+			gone := false
+			protected := k == newest || (cs.latest > 0 && k.Idx >= cs.latest)
+			for try := 0; try < 3000; try++ {
+				if protected && try > 0 {
+					break // nothing may remove files of a protected checkpoint: judged after one second look
+				}
+				time.Sleep(20 * time.Millisecond)
+				if _, serr := os.Stat(k.Dir); serr != nil {
+					gone = true
+					break
+				}
+				if h, err = hashDir(k.Dir); err != nil {
+					continue // vanishing under the walk
+				}
+				d = diffHashes(k.Hashes, h)
+				if d == "" || !onlyRemovals(d) {
+					break
+				}
+			}
+			if gone || d == "" {
 				continue
 			}
-			if h, err = hashDir(k.Dir); err != nil {
-				continue
-			}
-			d = diffHashes(k.Hashes, h)
-			if d == "" {
+			if onlyRemovals(d) && !protected {
+				// still half removed after 60 s: no verdict from a watchdog
+				cs.incon = fmt.Sprintf("checkpoint %s lost files (%s) but its directory did not disappear within the 60 s watchdog (%s)", k.name(), d, when)
+				k.Hashes = h
 				continue
 			}
 			cs.violation("checkpoint-files-changed/"+cs.Engine, fmt.Sprintf("files of checkpoint %s changed (%s): %s", k.name(), when, d), map[string]interface{}{"checkpoint": k.name(), "diff": d})
